@@ -1,0 +1,27 @@
+//go:build verif
+
+package gcsutil
+
+// This file is only compiled with the "verif" build tag: yield points for an
+// external controlled scheduler and a read-only view of the map size.
+
+// VerifYield, when set, is called at every named internal step of
+// TransientLockMap. enabled (may be nil) tells whether the step that follows
+// can complete without blocking.
+var VerifYield func(point string, enabled func() bool)
+
+func verifYield(point string, enabled func() bool) {
+	if f := VerifYield; f != nil {
+		f(point, enabled)
+	}
+}
+
+// verifFree reports whether the key lock is currently free.
+func (m *countedLock) verifFree() bool { return len(m.ch) == 0 }
+
+// VerifLen returns the number of entries currently in the map.
+func (l *TransientLockMap) VerifLen() int {
+	l.mu.Lock()
+	defer l.mu.Unlock()
+	return len(l.locks)
+}
